@@ -3,7 +3,8 @@
    DeadlineProofs.v). *)
 From Coq Require Import List ZArith NArith Bool Permutation.
 From NSQV Require Import gen.Consts model.Judge model.Num model.Heap model.Deadline
-  proofs.NumProofs proofs.HeapProofs proofs.DeadlineProofs.
+  proofs.NumProofs proofs.HeapProofs proofs.DeadlineProofs
+  model.ScanPick proofs.ScanPickProofs.
 Import ListNotations.
 
 (* ================================================================== range checks,
@@ -262,6 +263,21 @@ Theorem C04_scan_exact :
 Proof. exact (conj (scan_inflight_exact) (scan_deferred_exact)). Qed.
 Print Assumptions C04_scan_exact.
 
+(* ================================================================== which channels a tick scans
+   (queueScanLoop: util.UniqRands(min(QueueScanSelectionCount, #channels), #channels)),
+   for EVERY stream of random numbers: distinct in-range channels, as many as asked for;
+   and with no more channels than the selection count every tick scans every channel --
+   so there the lateness of a due message is bounded by the time between two ticks *)
+Theorem C04_tick_selection :
+  (forall selection_count nchannels rs, (nchannels <= selection_count)%nat ->
+     Permutation (tick_picks selection_count nchannels rs) (seq 0 nchannels)) /\
+  (forall selection_count nchannels rs,
+     NoDup (tick_picks selection_count nchannels rs) /\
+     (forall x, In x (tick_picks selection_count nchannels rs) -> (x < nchannels)%nat) /\
+     length (tick_picks selection_count nchannels rs) = Nat.min selection_count nchannels).
+Proof. exact (conj tick_scans_all tick_scans_count). Qed.
+Print Assumptions C04_tick_selection.
+
 (* the fuel given to up/down by every caller is never the reason a loop stops *)
 Theorem C04_fuel_irrelevant :
   (forall f1 f2 l j, (j <= f1)%nat -> (j <= f2)%nat -> up f1 l j = up f2 l j) /\
@@ -314,3 +330,8 @@ Example C04_witness_history :
          ScanDeferred 1066; ScanDeferred 1068; ScanInFlight 1900; Touch 2000 7 1 60])
   = [Ok; Ok; Ok; Ready []; Ready [8]; Ok; Ok; Ready []; Ready [7; 9]; Ready []; Err].
 Proof. vm_compute. reflexivity. Qed.
+
+Example C04_witness_tick :
+  tick_picks (Z.to_nat nsqd_opt_QueueScanSelectionCount) 5 [7; 3; 9; 1; 4; 8]%nat = [2; 4; 0; 1; 3]%nat /\
+  length (tick_picks (Z.to_nat nsqd_opt_QueueScanSelectionCount) 50 (seq 3 40)) = 20%nat.
+Proof. vm_compute. split; reflexivity. Qed.
